@@ -457,7 +457,67 @@ def oddname_task(p, cfg, rec):
     p.structural('the two children have different full paths', paths[0] != paths[1], detail={'path': paths[0]})
 
 
+FRESH_SCRIPT = r"""
+import sys, json, io, contextlib
+import py4hw
+from py4hw.logic.bitwise import And2, Or2, Buf, Not
+out = {}
+with contextlib.redirect_stdout(io.StringIO()):
+    s = py4hw.HWSystem()
+    a, b, r, o = s.wire('a', 2), s.wire('b', 2), s.wire('r', 2), s.wire('o', 2)
+    order = sys.argv[1]
+    def group():
+        g = py4hw.Logic(s, 'grp')            # a bare structural grouping block with ports of its own
+        g.addIn('a', a); g.addIn('b', b); g.addOut('r', r)
+        return g
+    def prims(parent):
+        And2(parent, 'g1', a, b, r)
+    if order == 'group-first':
+        g = group(); prims(g)
+    else:
+        Buf(s, 'warm', a, s.wire('w0', 2)); g = group(); prims(g)
+    py4hw.Constant(s, 'ka', 1, a); py4hw.Constant(s, 'kb', 2, b)
+    Not(s, 'n', r, o)
+    out['source registered'] = r.getSource() is not None
+    try:
+        Or2(g, 'g2', a, b, r)
+        out['second driver refused'] = False
+    except Exception:
+        out['second driver refused'] = True
+    out['first driver kept'] = (r.getSource() is not None and r.getSource().parent.name == 'g1')
+    try:
+        py4hw.debug.checkIntegrity(s)
+        out['fully driven hierarchy accepted'] = True
+    except Exception as e:
+        out['fully driven hierarchy accepted'] = False
+        out['error'] = str(e)[:200]
+    u = s.wire('u', 2)
+    Not(s, 'reads_u', u, s.wire('v', 2))
+    try:
+        py4hw.debug.checkIntegrity(s)
+        out['undriven port wire reported'] = False
+    except Exception:
+        out['undriven port wire reported'] = True
+sys.stdout.write('@@' + json.dumps(out))
+"""
+
+
+def fresh_task(p, cfg, rec):
+    """the same construction/integrity obligations in a FRESH interpreter, where the first block the library ever sees is a bare
+    structural grouping block (class-level caches are cold and are filled by it).  Executed concretely: no data involved."""
+    import subprocess
+    import json as _json
+    r = subprocess.run([sys.executable, '-W', 'ignore', '-c', FRESH_SCRIPT, cfg['order']], capture_output=True, text=True, timeout=300)
+    if r.returncode != 0 or '@@' not in r.stdout:
+        p.inconclusive('fresh interpreter', 'script failed: %s' % r.stderr[-300:])
+        return
+    out = _json.loads(r.stdout.split('@@', 1)[1])
+    for k in ('source registered', 'second driver refused', 'first driver kept', 'fully driven hierarchy accepted', 'undriven port wire reported'):
+        p.structural('fresh interpreter (%s): %s' % (cfg['order'], k), bool(out.get(k)), detail=out)
+
+
 def tasks_for(tier):
+    pre = [('fresh interpreter, %s' % o, fresh_task, {'order': o}) for o in ('group-first', 'primitive-first')]
     quick = tier == 'quick'
     t = [('construction API, template %s, one operation' % k, construct_task, {'template': k, 'first': None}) for k in ('flat', 'two-level')]
     # two-operation histories: the first operation enumerated here, the second by symbolic selectors
@@ -498,7 +558,7 @@ def tasks_for(tier):
                 continue
             seen.add(key)
             t.append(('integrity %s' % name, integrity_task, {'build': cfg['build'], 'kind': kind}))
-    return t
+    return pre + t
 
 
 def main(argv=None):
